@@ -1,8 +1,8 @@
 package main
 
 import (
-	"go/types"
 	"fmt"
+	"go/types"
 	"os"
 	"sort"
 	"strings"
@@ -48,9 +48,9 @@ var c20Guards = []guardSpec{
 // reviewed unguarded accesses: "<func> <owner>.<field>"
 var c20GuardExceptions = ExcTable{
 	"cmd/esbuild.(*serviceType).handleBuildRequest cmd/esbuild.activeBuild.ctx": "initial store right after api.Context() returned and before the response packet is sent: the client learns that the context exists only from that response, so no rebuild/cancel/dispose/resolve request for this key can be in flight, and no build (hence no on-start callback) has been started yet",
-	"fs.(*realFS).WatchData fs.realFS.watchData": "each build creates its own realFS; rebuildImpl calls WatchData() after ScanBundle has joined every goroutine that reads files, and nothing reads files through this FS afterwards (Compile only uses path functions)",
-	"pkg/api.(*internalContext).Dispose pkg/api.internalContext.watcher": "read after the critical section that set didDispose: Watch() assigns ctx.watcher only under the lock after testing didDispose, so no write can follow; the lock hand-over orders any earlier write before this read",
-	"pkg/api.(*internalContext).Dispose pkg/api.internalContext.handler": "read after the critical section that set didDispose: Serve() assigns ctx.handler only under the lock after testing didDispose, so no write can follow; the lock hand-over orders any earlier write before this read",
+	"fs.(*realFS).WatchData fs.realFS.watchData":                                "each build creates its own realFS; rebuildImpl calls WatchData() after ScanBundle has joined every goroutine that reads files, and nothing reads files through this FS afterwards (Compile only uses path functions)",
+	"pkg/api.(*internalContext).Dispose pkg/api.internalContext.watcher":        "read after the critical section that set didDispose: Watch() assigns ctx.watcher only under the lock after testing didDispose, so no write can follow; the lock hand-over orders any earlier write before this read",
+	"pkg/api.(*internalContext).Dispose pkg/api.internalContext.handler":        "read after the critical section that set didDispose: Serve() assigns ctx.handler only under the lock after testing didDispose, so no write can follow; the lock hand-over orders any earlier write before this read",
 }
 
 type lockCache struct {
@@ -164,7 +164,7 @@ func (lc *lockCache) info(fn *ssa.Function) *lockInfo {
 
 func init() {
 	register(&Property{
-		ID: "C20",
+		ID:          "C20",
 		Explanation: "Decides structural necessary conditions of concurrency safety of contexts, plugins and the stdio service (not absence of all races or liveness): R1 guarded-by: every read/write of the listed shared fields (build-context state, service state, watcher and serve-handler state, caches) happens with the owning mutex in the must-hold lock set (intraprocedural dataflow with defer handling and one level of call-site binding), or is a reviewed entry; R2 every Lock is released on all exits (or deferred), and no blocking operation (WaitGroup.Wait, plugin/rebuild call, channel op) runs while a context/service mutex is held; R3 Rebuild/Cancel/Dispose join semantics (Add and activeBuild publication in one critical section, activeBuild cleared under the lock before Done, Cancel/Dispose wait for the snapshotted build, didDispose tested under the lock by every public method); R4 each stdio request gets exactly one response carrying its own id on every path, and every goroutine of the handler is accounted in the keep-alive wait group; R5 on-start callbacks complete before anything that can reach resolve/load callbacks, and on-end callbacks run after the output-writing wait and on every path. R3 also decides that no return of Cancel/Dispose is reachable without Wait or the activeBuild-is-nil edge. R6 goroutine-private-slots (E-SLOT). R7 lock-order: the module-wide lock-order graph (mutex B acquired directly or through static callees while mutex A is in the must-hold set) has no cycle; no mutex is locked, directly or by a callee on the same object, while already held. R8 spawn-then-write. R9 mangle-cache-per-build: the mangle cache given to Compile is a cloneMangleCache result of the same function. R10 skipped-write-is-verified: every path of the per-file output writer to a return passes the writing-disabled gate, WriteFile, an error report or the read-back of the file. NOT covered: data races on fields outside the table, liveness under arbitrary plugin behaviour, the TypeScript side of the protocol.",
 		Run: func(p *Prog, tier string) []*RuleResult {
 			return []*RuleResult{c20GuardedBy(p), c20LockBalance(p), c20JoinSemantics(p), c20OneResponse(p), c20CallbackOrdering(p), goroutinePrivateSlots(p, "C20/R6 goroutine-private-slots"), c20LockOrder(p), spawnThenWrite(p, "C20/R8 spawn-then-write"), c20MangleCachePerBuild(p), skippedWriteVerified(p, "C20/R10 skipped-write-is-verified")}
@@ -275,8 +275,8 @@ func writtenOnlyUnshared(acc []fieldAccess) bool {
 // reviewed: "<func> <lock>" held at return, or "<func> blocking <op>" under lock
 var c20BalanceExceptions = ExcTable{
 	"pkg/api.(*apiHandler).broadcastBuildResult blocking channel send under param:h|.mutex": "serve mode live reload: each registered stream has a dedicated goroutine receiving until the stream is closed; it stops early only after a write error on a dead connection, upon which CloseNotify removes the stream under the same mutex. A residual window (consumer gone, stream still registered, next broadcast wins the mutex) could block the sender; 13k rebuilds against aborting event-stream clients did not reproduce it, so it is recorded as reviewed, not as a finding",
-	"pkg/api.(*internalContext).Serve blocking WaitGroup.Wait under param:ctx|.mutex":      "bounded wait for the HTTP server goroutine to report that it started (or failed) listening; the goroutine signals exactly once on both outcomes and never takes ctx.mutex",
-	"pkg/api.(*internalContext).Serve blocking time.Sleep under param:ctx|.mutex":          "fixed 50 ms sleep (documented Linux socket-reuse workaround) during one-time server start-up",
+	"pkg/api.(*internalContext).Serve blocking WaitGroup.Wait under param:ctx|.mutex":       "bounded wait for the HTTP server goroutine to report that it started (or failed) listening; the goroutine signals exactly once on both outcomes and never takes ctx.mutex",
+	"pkg/api.(*internalContext).Serve blocking time.Sleep under param:ctx|.mutex":           "fixed 50 ms sleep (documented Linux socket-reuse workaround) during one-time server start-up",
 }
 
 func isBlockingInstr(in ssa.Instruction) string {
